@@ -26,6 +26,7 @@ def _all_codec_names():
 
 
 ALL_CODECS = _all_codec_names()
+LONG_CODECS = [n for n in ALL_CODECS if len(n) >= 12]
 DECL = ['# -*- coding: %s -*-', '# coding=%s', '#coding:%s', '# vim: set fileencoding=%s :', '#!/usr/bin/python # coding: %s',
         '  # coding: %s', '\t#coding=%s', 'coding: %s', 'x = 1 # coding: %s', 'encoding=%s', '"""coding: %s"""', "s = 'coding=%s'",
         '# Coding: %s', '# coding : %s', '# coding:%s trailing', '#coding=%s#', '# -*- coding: %s; mode: python -*-', '# codingX: %s',
@@ -52,8 +53,14 @@ def codec_names(near=None):
 
 @st.composite
 def byte_source_histories(draw):
-    """1-3 byte sources decoded one after the other in one process; the later ones declare siblings of the first one's codec half
-    of the time (a lookup that is memoised, truncated or normalised too eagerly confuses exactly such names)."""
+    """1-3 byte sources decoded one after the other in one process.  Half of the histories are built around one base codec name:
+    every source declares the base or a *sibling* of it (neighbours in the sorted list, case / separator variants, names Python
+    does not know that share a long prefix with it) - a lookup that is memoised, truncated, normalised too eagerly or remembers
+    failures confuses exactly such names, in whichever order they come."""
+    if draw(st.booleans()):
+        base = draw(st.one_of(codec_names(), st.sampled_from(LONG_CODECS)))
+        n = draw(st.sampled_from([2, 2, 3]))
+        return [draw(byte_sources(near=base)) for _ in range(n)]
     first, codec = draw(byte_sources(with_codec=True))
     res = [first]
     for _ in range(draw(st.sampled_from([0, 0, 1, 1, 2]))):
